@@ -42,6 +42,14 @@ def collect(h):
         if len(ks) != 1:
             raise h.Missing(f"{rel}: cannot identify the claim IssueToken writes for {role}")
         items.append((f"jwt_k_{role}_issue", "list N", _bytes(ks[0]), rel + " IssueToken"))
+    # the payload goes through a map: with json.Number its integers survive, with float64 only up to 2^53
+    if re.search(r"json\.Unmarshal\(b, &m\)", issue):
+        use_number = "false"
+    elif re.search(r"coreutils\.JSONUnmarshal\(b, &m\)", issue) or re.search(r"\.UseNumber\(\)", issue):
+        use_number = "true"
+    else:
+        raise h.Missing(f"{rel}: cannot tell how IssueToken decodes the marshalled payload into the claims map")
+    items.append(("jwt_issue_uses_number", "bool", use_number, rel + " IssueToken: payload -> map with json.Number (true) or float64 (false)"))
     if not re.search(r"mergeClaimsMaps\(m,\s*\*claims\)", issue):
         raise h.Missing(f"{rel}: IssueToken no longer merges the payload under the standard claims")
 
